@@ -524,7 +524,8 @@ def check_c04(rep):
     env = Env(rep)
     known, _ = load_known()
     o1 = ob_add(rep, Q.q04(env.ctx))
-    o2 = ob_add(rep, Q.q04(env.ctx, True))
+    # closure-level idempotence on the real tables is slow (two table compositions per path); the quick tier relies on QLEM + Q10p
+    o2 = ob_add(rep, Q.q04(env.ctx, True)) if rep.tier == 'thorough' else None
     cases = [('lower', {'c': c}, {'op': 'lower', 'cases': [[c]]}) for c in sample_cps(rep)]
     native = env.eval([c[2] for c in cases])
     for (kind, inp, _op), nat in zip(cases, native):
@@ -535,7 +536,7 @@ def check_c04(rep):
     if rep.validation['mismatches']:
         rep.inconclusive.append('translator validation mismatch: %s' % json.dumps(rep.validation['mismatches'][0])[:300])
     for o in (o1, o2):
-        if o.result != 'sat':
+        if o is None or o.result != 'sat':
             continue
         models = o.verdict.models
         ops = []
@@ -1219,26 +1220,79 @@ def run_trie_obligations(rep, env, known, shapes):
             classify(rep, known, 'Q16t', key, 'input shape %s: %s' % (shape_txt, what), {'inputs': {'clusters': clusters}, 'observed': obs}, bad)
 
 
+def replay_minimised(env, cases):
+    """public-API replay for the minimisation stage: default build(), then the regex crate on the universe of short strings"""
+    got = env.eval([{'op': 'build', 'cases': cases, 'settings': {}}])
+    pat = got[0].get('ok')
+    if pat is None:
+        return True, 'build() panics: %s' % got[0], {}
+    alphabet = sorted(set(c for s_ in cases for c in s_)) or [0x61]
+    max_len = max(len(s_) for s_ in cases) + 1
+    lang = env.eval([{'op': 'regex_language', 'pattern': pat, 'alphabet': alphabet, 'max_len': max_len}])[0].get('ok')
+    if not isinstance(lang, list):
+        return True, 'pattern %s does not compile' % json.dumps(''.join(map(chr, pat))), {'pattern': pat}
+    extra = [w for w in lang if w not in cases]
+    missing = [w for w in cases if w not in lang]
+    what = 'build(%s) = %s' % ([''.join(map(chr, s_)) for s_ in cases], json.dumps(''.join(map(chr, pat))))
+    if extra:
+        what += ' also matches %s' % [''.join(map(chr, w)) for w in extra[:6]]
+    if missing:
+        what += ' does not match %s' % [''.join(map(chr, w)) for w in missing]
+    return bool(extra or missing), what, {'pattern': pat, 'extra': extra[:10], 'missing': missing}
+
+
+def run_minimiser_obligations(rep, env, known, specs):
+    for shape, max_count, with_empty in specs:
+        o = Q.q16m(env.ctx, shape, max_count=max_count, with_empty=with_empty)
+        if o.result == 'sat':
+            d = o.as_dict()
+            d['result'] = 'superseded'
+            d['note'] = 'sat for arbitrary code points; re-decided over the letters a..z so that counterexamples are plain strings'
+            rep.obligations.append(d)
+            o = Q.q16m(env.ctx, shape, max_count=max_count, with_empty=with_empty, letters=True)
+        ob_add(rep, o)
+        if o.result != 'sat':
+            continue
+        for m in o.verdict.models:
+            clusters = trie_model_clusters(m, shape)
+            cases = ([[]] if with_empty else []) + [[c for c, k in cl for _ in range(k)] for cl in clusters]
+            bad, what, obs = replay_minimised(env, cases)
+            lost_empty = with_empty and [] in obs.get('missing', [[]] if bad else [])
+            key = 'empty-test-case-lost' if (with_empty and obs.get('missing') == [[]] and not obs.get('extra')) else 'cases=%s%s' % ('""|' if with_empty else '', canonical_shape(clusters))
+            classify(rep, known, 'Q16m', key, what, {'inputs': {'min_cases': cases}, 'observed': obs}, bad)
+
+
+MIN_SPECS_QUICK = [((1,), 1, False), ((1, 1), 1, False), ((2, 1), 1, False), ((2, 2), 1, False), ((2, 1), 2, False),
+                   ((1,), 1, True), ((2, 1), 1, True)]
+MIN_SPECS_THOROUGH = MIN_SPECS_QUICK + [((2, 2), 2, False), ((2, 2, 1), 1, False), ((3, 2), 1, False), ((3, 3), 1, False), ((2, 2), 1, True)]
 TRIE_SHAPES_QUICK = [(1, 1), (2, 1), (1, 2), (2, 2)]
 TRIE_SHAPES_THOROUGH = TRIE_SHAPES_QUICK + [(1, 1, 1), (2, 2, 1), (3, 2)]
 
 
 def check_c16(rep):
-    rep.statement = ('trie stage only: for the stated shapes of input (2-3 clusters of 1-3 one-code-point graphemes with exact repeat counts '
+    rep.statement = ('(2) minimisation stage: Dfa::minimize (Hopcroft refinement over sets of states, get_parent_states) and recreate_graph, executed '
+                     'from MIR, return an automaton with the same language as the trie; with single-symbol edges it is deterministic and no two '
+                     'reachable states share a right language (2-3 clusters of 1-3 graphemes; also with counts <= 2 for the language clause). On '
+                     'this tree the EMPTY test case is lost (known finding F7: recreate_graph marks a state final only as the target of an edge). '
+                     '(1) trie stage: for the stated shapes of input (2-3 clusters of 1-3 one-code-point graphemes with exact repeat counts '
                      '1..=3, the form the cluster converter produces) the automaton built by Dfa::from WITHOUT minimisation (new, insert, '
                      'return_next_state, find_next_state with its edge-label widening, add_new_state -- executed from MIR over a concrete-shape '
                      'model of petgraph\'s StableGraph) accepts exactly the union of the inserted clusters. On this tree it does NOT: the solver '
                      'returns the complete set of violating input shapes within the bound (known finding F5, edge widening conflates prefixes).')
-    rep.outside = ['Hopcroft minimisation (HashSet partition refinement, recreate_graph) and its minimality', 'state elimination on ndarray (Expression::from) and printing',
+    rep.outside = ['state elimination on ndarray (Expression::from) and printing', 'HashSet iteration orders other than insertion order (the real order depends on per-process hash seeds)',
                    'clusters with multi-code-point graphemes, counts > 3, more clusters than the stated shapes']
     rep.assumptions += ['petgraph StableGraph is modelled with a concrete shape: nodes, edges in insertion order, neighbors() newest edge first, '
                         'update_edge replaces the weight of an existing edge; BTreeSet/HashSet as duplicate-free lists']
     env = Env(rep)
     known, _ = load_known()
     run_trie_obligations(rep, env, known, TRIE_SHAPES_QUICK if rep.tier == 'quick' else TRIE_SHAPES_THOROUGH)
+    run_minimiser_obligations(rep, env, known, MIN_SPECS_QUICK if rep.tier == 'quick' else MIN_SPECS_THOROUGH)
 
 
 def replay_c16(env, rec):
+    if 'min_cases' in rec['inputs']:
+        bad, what, _ = replay_minimised(env, rec['inputs']['min_cases'])
+        return bool(bad), what
     bad, what, _ = replay_trie(env, [[tuple(x) for x in cl] for cl in rec['inputs']['clusters']])
     return bool(bad), what
 
